@@ -81,3 +81,22 @@ func (r *Router) VerifHelloPending() []netip.Addr {
 	}
 	return out
 }
+
+// VerifHelloExpire lets this router's hello state for the given peer expire now.
+func (r *Router) VerifHelloExpire(peer netip.Addr) {
+	h := r.HelloPing
+	h.activeLock.Lock()
+	defer h.activeLock.Unlock()
+	if st := h.active[peer]; st != nil {
+		st.expires = time.Now().Add(-time.Second)
+	}
+}
+
+// VerifHelloState reports this router's unexpired hello state for the given peer.
+func (r *Router) VerifHelloState(peer netip.Addr) (active, done bool) {
+	st := r.HelloPing.getActive(peer)
+	if st == nil {
+		return false, false
+	}
+	return true, st.done.Load()
+}
